@@ -3,10 +3,12 @@
 package fw
 
 import (
+	"context"
 	"crypto/sha1"
 	"encoding/hex"
 	"encoding/json"
 	"fmt"
+	"runtime/pprof"
 	"sort"
 	"sync"
 )
@@ -130,6 +132,8 @@ type Prop struct {
 	Assumptions []string
 	// MaxShards limits parallel workers (0 = 16).
 	MaxShards int
+	// Batch: cases per worker process (0 = 6).
+	Batch int
 }
 
 var registry = map[string]*Prop{}
@@ -249,4 +253,13 @@ func Permutations(n int) [][]int {
 	}
 	rec(0)
 	return out
+}
+
+// Rep runs f under its own goroutine label (env.Label + "-r<i>"): goroutines a
+// cancelled earlier repetition left behind must not count in the census of the
+// next one.
+func Rep(env *Env, i int, f func(env *Env)) {
+	e2 := *env
+	e2.Label = fmt.Sprintf("%s-r%d", env.Label, i)
+	pprof.Do(context.Background(), pprof.Labels("vcase", e2.Label), func(context.Context) { f(&e2) })
 }
